@@ -943,5 +943,22 @@ example : (Gen.diagSites.map (fun s => (s.recv, s.sink, s.builder))).take 2 =
 /-- the obligation is not vacuous: a `warning!` sent through `ctx.error(..)` (seed C03-9) is refused -/
 example : ¬ DiagSiteAgrees ⟨"src/analysis/event_consumer.rs", "ingredient", 4, "ctx", "error", .warning,
     "helper fn conflicting_reference_quantity_error"⟩ := by decide +kernel
+-- ===== w9report =====
+
+/-- **C03, report rendering: the width arithmetic.**  The one `usize` subtraction of `write_report`
+    (`max(w, 1) - sub`, error.rs:537; seed audit C03-3) cannot underflow: for every sequence of code parts codesnake
+    may hand to the closure, every string-width function and every state of the `prev_empty` flag, the model of the
+    closure returns a width for every part and no panic value (`C04_report_widths_never_panic`).  Still exercised by
+    the runs only: the slices of `Parts::segment` for unlabelled parts, the drawing code of codesnake. -/
+theorem C03_report_width_arithmetic_no_panic (sw : List Char → Nat) (pe : Bool) (parts : List (List Char)) :
+    ∀ e, codeWidths sw pe parts ≠ .error e := by
+  intro e h
+  rw [C04_report_widths_never_panic] at h
+  cases h
+
+/-! non-vacuity: an empty part (an empty label) followed by a part of string width 0 — the case in which an unclamped
+    `w - sub` would underflow -/
+example : codeWidths (fun _ => 0) false [[], ['\u0301']] = .ok [1, 0] := by rfl
+-- ===== end w9report =====
 
 end Cook
